@@ -526,7 +526,7 @@ def cache_order_histories(L, lo, hi, full=True):
     """Yields (anchor ns, kind, label, [instants]) - query sequences for a FRESH cached zone, computed from an interval list only.
 
     (a) every transition T in [lo, hi] whose UTC day is the first or last day of a 32-day cache period.  `around` = end of the previous day,
-        00:00 of T's day, T-1ns, T, T+1ns, end of T's day, 00:00 of the next day.  One first step, then `around` ascending, for each first step in
+        00:00 of T's day, T-1ns, T, T+1ns, end of T's day, 00:00 of the next day (reduced set, full=False: 00:00 of T's day, T-1ns, T).  One first step, then `around` ascending, for each first step in
         {following period, previous period, T + 512 periods, T-1ns - 512 periods} and (full) {T + 1024, T-1ns - 1024 periods};
         (full) the +-512 aliases and the neighbouring periods also followed by `around` descending; (full) `around` asc/desc followed by all first steps.
     (b) every interval in [lo, hi] longer than 512 periods that ends: first end - k*512 periods (k = 1, 2 and the largest k inside the interval,
@@ -542,7 +542,7 @@ def cache_order_histories(L, lo, hi, full=True):
         if day % CACHE_PERIOD_DAYS not in (0, CACHE_PERIOD_DAYS - 1):
             continue
         d0 = day * DAY_NS
-        around = sorted({q for q in (d0 - 1, d0, T - 1, T, T + 1, d0 + DAY_NS - 1, d0 + DAY_NS) if ok(q)})
+        around = sorted({q for q in ((d0 - 1, d0, T - 1, T, T + 1, d0 + DAY_NS - 1, d0 + DAY_NS) if full else (d0, T - 1, T)) if ok(q)})
         pstart = (day - day % CACHE_PERIOD_DAYS) * DAY_NS
         firsts = [("following period", pstart + per + per // 2), ("previous period", pstart - per // 2),
                   ("+512 periods", T + span), ("-512 periods", T - 1 - span)]
